@@ -34,6 +34,8 @@ def srcOps : CoreOps where
   drainNext := Gen.Drain_next
   drainNextBack := Gen.Drain_next_back
   drainLen := Gen.Drain_len
+  drainAsSlices := Gen.Drain_as_slices
+  drainDrop := Gen.Drain_drop
 
 end CircBuf.Driver
 
